@@ -1534,14 +1534,15 @@ Section ProgramRel.
     rewrite IH. reflexivity.
   Qed.
 
-  Lemma frozen_rel : forall s1 s2 params,
+  Lemma frozen_rel : forall s1 s2 params taken,
       state_rel s1 s2 ->
-      map (fun h => match grad_of s1 h with None => true | Some _ => false end) params
-      = map (fun h => match grad_of s2 h with None => true | Some _ => false end) params.
+      frozen_flags s1 taken params = frozen_flags s2 taken params.
   Proof.
-    intros s1 s2 params Hs. apply map_ext. intros h.
-    pose proof (grad_of_rel _ _ h Hs) as Hg.
-    destruct (grad_of s1 h), (grad_of s2 h); simpl in Hg; try contradiction; reflexivity.
+    intros s1 s2 params. induction params as [|h params IH]; intros taken Hs; [reflexivity|].
+    cbn [frozen_flags]. pose proof (grad_of_rel _ _ h Hs) as Hg.
+    destruct (grad_of s1 h), (grad_of s2 h); simpl in Hg; try contradiction.
+    - destruct (existsb (Nat.eqb (e_node h)) taken); f_equal; apply IH; exact Hs.
+    - f_equal. apply IH. exact Hs.
   Qed.
 
   Definition upd_rel (a : @state F1 * list F1 * list handle) (b : @state F2 * list F2 * list handle)
@@ -1553,8 +1554,8 @@ Section ProgramRel.
       orel (prel state_rel eq) (gd_update O1 s1 lr1 params) (gd_update O2 s2 lr2 params).
   Proof.
     intros s1 s2 lr1 lr2 params Hs. unfold gd_update. cbv zeta.
-    rewrite (frozen_rel _ _ params Hs).
-    set (frozen := map (fun h => match grad_of s2 h with None => true | Some _ => false end) params).
+    rewrite (frozen_rel _ _ params [] Hs).
+    set (frozen := frozen_flags s2 [] params).
     set (unfrozen := map fst (filter (fun p : handle * bool => negb (snd p)) (combine params frozen))).
     eapply obind_rel with (R := Forall2 leq).
     { apply mapM_same. intros h.
